@@ -19,8 +19,8 @@ def ph : CPc → Nat
   | .doneClosedPc => 2
   | .waited => 3
   | .pass => 4
-  | .flushPc => 5
-  | .purgePc => 6
+  | .purgePc => 5
+  | .flushPc => 6
   | .reporterClose => 7
   | .returned _ => 8
 
@@ -47,9 +47,9 @@ structure Ctl (s : State) : Prop where
   wph : ∀ w, s.winner = some w → 1 ≤ ph (s.closers w)
   closed_iff : s.rootClosed = s.winner.isSome
   loopEx : 3 ≤ ph (wpc s) → s.loop = .exited
-  purged_iff : s.purged = decide (7 ≤ ph (wpc s))
+  purged_iff : s.purged = decide (6 ≤ ph (wpc s))
   threads : ThreadsOk s.loop s.closers s.reg
-  logFlush : 6 ≤ ph (wpc s) → ph (wpc s) ≤ 7 → ∃ m rest, s.log = .flush m :: rest
+  logFlush : 7 ≤ ph (wpc s) → ph (wpc s) ≤ 7 → ∃ m rest, s.log = .flush m :: rest
   logRet : ph (wpc s) = 8 → ∃ n m rest,
     s.log = if s.closable then .reporterClose n :: .flush m :: rest else .flush m :: rest
   rc : countRC s.log = if ph (wpc s) = 8 ∧ s.closable = true then 1 else 0
@@ -236,9 +236,9 @@ theorem wpc_setC_other {s : State} {t : Nat} {p : CPc} (hw : s.winner ≠ some t
 theorem Ctl.wmove {s s' : State} (h : Ctl s) {t : Nat} (hw : ∀ u, u ≠ t → s.winner ≠ some u) (p' : CPc)
     (hw' : s'.winner = some t) (hc : s'.closers = fun u => if u = t then p' else s.closers u)
     (hph : 1 ≤ ph p') (hrc : s'.rootClosed = true)
-    (hl : 3 ≤ ph p' → s'.loop = .exited) (hp : s'.purged = decide (7 ≤ ph p'))
+    (hl : 3 ≤ ph p' → s'.loop = .exited) (hp : s'.purged = decide (6 ≤ ph p'))
     (ht : ThreadsOk s'.loop s'.closers s'.reg)
-    (hlf : 6 ≤ ph p' → ph p' ≤ 7 → ∃ m rest, s'.log = .flush m :: rest)
+    (hlf : 7 ≤ ph p' → ph p' ≤ 7 → ∃ m rest, s'.log = .flush m :: rest)
     (hlr : ph p' = 8 → ∃ n m rest, s'.log = if s'.closable then .reporterClose n :: .flush m :: rest else .flush m :: rest)
     (hrcnt : countRC s'.log = if ph p' = 8 ∧ s'.closable = true then 1 else 0) : Ctl s' := by
   have hwpc : wpc s' = p' := by simp [wpc, hw', hc]
@@ -465,6 +465,20 @@ theorem ctl_step {s s' : State} {e : Ev} (h : Ctl s) (hs : step san s e = some s
         rw [← hfun]
         exact h.threads.closerStep hr t .pass rfl (Or.inl ⟨rfl, (Registry.step_pass_kind hr hp).1⟩)
     · next hpc =>
+      -- the purge (before the final flush)
+      split at hs
+      · cases hs
+        have hw := h.winner_of t (by rw [hpc]; simp [ph])
+        have hrcl : s.rootClosed = true := by rw [h.closed_iff, hw]; rfl
+        have hrc0 := h.rc
+        rw [wpc_of_winner hw, hpc] at hrc0
+        have hex := h.loopEx (by rw [wpc_of_winner hw, hpc]; simp [ph])
+        refine h.wmove (winner_only hw) .flushPc hw rfl (by simp [ph]) hrcl (fun _ => hex) (by simp [ph])
+          (ThreadsOk.setC (r' := purgeReg s.reg) h.threads (fun _ => rfl) t .flushPc (by rw [hpc]; simp) (by simp))
+          (by simp [ph]) (by simp [ph]) (by simpa [ph] using hrc0)
+      · cases hs
+    · next hpc =>
+      -- the final flush (after the purge)
       cases hs
       have hw := h.winner_of t (by rw [hpc]; simp [ph])
       have hrcl : s.rootClosed = true := by rw [h.closed_iff, hw]; rfl
@@ -473,22 +487,9 @@ theorem ctl_step {s s' : State} {e : Ev} (h : Ctl s) (hs : step san s e = some s
       have hpu := h.purged_iff
       rw [wpc_of_winner hw, hpc] at hpu
       have hex := h.loopEx (by rw [wpc_of_winner hw, hpc]; simp [ph])
-      refine h.wmove (winner_only hw) .purgePc hw rfl (by simp [ph]) hrcl (fun _ => hex) (by simpa [ph] using hpu)
+      refine h.wmove (winner_only hw) .reporterClose hw rfl (by simp [ph]) hrcl (fun _ => hex) (by simpa [ph] using hpu)
         (h.threads.setC (fun _ => rfl) t _ (by rw [hpc]; simp) (by simp)) (fun _ _ => ⟨_, _, rfl⟩) (by simp [ph])
         (by simpa [ph, countRC] using hrc0)
-    · next hpc =>
-      split at hs
-      · cases hs
-        have hw := h.winner_of t (by rw [hpc]; simp [ph])
-        have hrcl : s.rootClosed = true := by rw [h.closed_iff, hw]; rfl
-        have hrc0 := h.rc
-        rw [wpc_of_winner hw, hpc] at hrc0
-        have hex := h.loopEx (by rw [wpc_of_winner hw, hpc]; simp [ph])
-        have hlf := h.logFlush (by rw [wpc_of_winner hw, hpc]; simp [ph]) (by rw [wpc_of_winner hw, hpc]; simp [ph])
-        refine h.wmove (winner_only hw) .reporterClose hw rfl (by simp [ph]) hrcl (fun _ => hex) (by simp [ph])
-          (ThreadsOk.setC (r' := purgeReg s.reg) h.threads (fun _ => rfl) t .reporterClose (by rw [hpc]; simp) (by simp)) (fun _ _ => hlf) (by simp [ph])
-          (by simpa [ph] using hrc0)
-      · cases hs
     · next hpc =>
       have hw := h.winner_of t (by rw [hpc]; simp [ph])
       have hrcl : s.rootClosed = true := by rw [h.closed_iff, hw]; rfl
@@ -541,8 +542,8 @@ theorem ctl_step {s s' : State} {e : Ev} (h : Ctl s) (hs : step san s e = some s
           have hpu := h.purged_iff
           rw [wpc_of_winner hw, hpc] at hpu
           have hex := h.loopEx (by rw [wpc_of_winner hw, hpc]; simp [ph])
-          refine h.wmove (winner_only hw) .flushPc hw rfl (by simp [ph]) hrcl (fun _ => hex) (by simpa [ph] using hpu)
-            (h.threads.closerStep hr t .flushPc rfl (Or.inr ⟨by simp, passEnd_pc hr⟩)) (by simp [ph]) (by simp [ph])
+          refine h.wmove (winner_only hw) .purgePc hw rfl (by simp [ph]) hrcl (fun _ => hex) (by simpa [ph] using hpu)
+            (h.threads.closerStep hr t .purgePc rfl (Or.inr ⟨by simp, passEnd_pc hr⟩)) (by simp [ph]) (by simp [ph])
             (by simpa [ph] using hrc0)
       · cases hs
     · cases hs
